@@ -18,6 +18,7 @@ from sklearn.decomposition import PCA
 from sklearn.dummy import DummyRegressor
 from sklearn.linear_model import LinearRegression, LogisticRegression, Ridge
 from sklearn.naive_bayes import GaussianNB
+from sklearn.svm import LinearSVC
 from sklearn.pipeline import Pipeline
 from sklearn.preprocessing import KBinsDiscretizer, MinMaxScaler, StandardScaler
 from sklearn.tree import DecisionTreeClassifier, DecisionTreeRegressor
@@ -46,7 +47,7 @@ def tok_any(doc):
 FUNCTIONS = {"col_sum": col_sum, "col_first_two": col_first_two, "np.log1p": np.log1p, "np.expm1": np.expm1, "tok_any": tok_any}
 
 SKLEARN = {c.__name__: c for c in [KMeans, PCA, DummyRegressor, LinearRegression, LogisticRegression, Ridge, GaussianNB,
-                                   KBinsDiscretizer, MinMaxScaler, StandardScaler, DecisionTreeClassifier, DecisionTreeRegressor, Pipeline]}
+                                   KBinsDiscretizer, MinMaxScaler, StandardScaler, DecisionTreeClassifier, DecisionTreeRegressor, Pipeline, LinearSVC]}
 HARNESS = {c.__name__: c for c in [H.RecordingRegressor, H.RecordingClassifier, H.CentroidClassifier, H.FailingRegressor,
                                    H.FailingClassifier, H.FailingTransformer, H.FakeTSNE, H.KwargsRegressor, H.KwargsClassifier, H.SkewedClassifier]}
 
@@ -819,6 +820,22 @@ def _p_arts(draw):
     d1 = 1
     return dict(cls="ARTimeSeriesRegressor", params=dict(estimator=draw(st.one_of(st.just("dummy"), st.just(dict(cls="LinearRegression", params={})))),
                                                          past=draw(st.integers(1, 3)), delay1=d1, delay2=d1 + draw(st.integers(1, 2)), use_all_past=draw(st.booleans())))
+
+
+@param_only("TransferTransformer:interdependent")
+def _p_tt_inter(draw):
+    # `method` must exist on `estimator` (asserted by the constructor): the estimators below offer different sets of methods, so a
+    # single-key set_params(estimator=...) or set_params(method=...) can leave a combination the constructor would refuse; set_params
+    # itself does not validate (scikit-learn's convention) and must leave the other key alone
+    offers = [("LogisticRegression", dict(C=draw(st.sampled_from([1.0, 0.5]))), [None, "predict_proba", "decision_function", "predict"]),
+              ("DecisionTreeClassifier", dict(max_depth=draw(st.sampled_from([2, 3]))), [None, "predict_proba", "predict"]),
+              ("GaussianNB", {}, [None, "predict_proba", "predict"]),
+              ("LinearSVC", dict(C=draw(st.sampled_from([1.0, 0.5]))), [None, "decision_function", "predict"]),
+              ("StandardScaler", {}, [None, "transform"]),
+              ("LinearRegression", {}, [None, "predict"])]
+    cls, params, methods = draw(st.sampled_from(offers))
+    return dict(cls="TransferTransformer", params=dict(estimator=dict(cls=cls, params=params), method=draw(st.sampled_from(methods)),
+                                                       copy_estimator=draw(st.booleans()), trainable=draw(st.booleans())))
 
 
 @param_only("TimeSeriesDifference")
